@@ -289,7 +289,7 @@ def copyPats (s : Screen) (c : Conn) (o : HookObs) : List RPat :=
     | some (vw, _) => scaleInt s.w vw o.dx
     | none => o.dx
   let dys := match c.scaled with
-    | some (vw, _) => scaleInt s.w vw o.dy      -- ScaleX is used for dy too
+    | some (_, vh) => scaleInt s.h vh o.dy      -- ScaleY (fix C03-scaled-copyrect-dy; the old code used ScaleX)
     | none => o.dy
   o.cpy.map fun g0 =>
     let g := viewGeo s c g0
